@@ -6,7 +6,11 @@
 package trzsz
 
 import (
+	"bytes"
+	"fmt"
 	"io"
+	"sync"
+	"time"
 )
 
 // VerifArchiveEntry is one sub-entry of an archive as the sender sees it.
@@ -117,3 +121,256 @@ func VerifParseArchiveHeader(line string) (pathID int, relPath []string, isDir b
 
 // VerifEncodeString is encodeString (zlib + base64), to build header lines from arbitrary JSON.
 func VerifEncodeString(s string) string { return encodeString(s) }
+
+// ---- who decides "archive": scan, grouping, NAME record, sender's and receiver's next step ----
+
+// VerifModeSrc is one element of the scan list (checkPathsReadable).
+type VerifModeSrc struct {
+	PathID  int
+	RelPath []string
+	IsDir   bool
+	Size    int64
+	AbsPath string
+}
+
+// VerifModeStep is one root after archiveSourceFiles with what either end does with it.
+type VerifModeStep struct {
+	Nil      bool // a nil slot of archiveSourceFiles' result
+	PathID   int
+	RelPath  []string
+	IsDir    bool
+	Size     int64
+	Archive  bool   // the flag in the NAME record, as the receiver's unmarshalSourceFile reads it
+	NSubs    int    // len(SubFiles)
+	Name     string // the NAME record (JSON)
+	Sender   string // "archive" | "none" | "file" | "err:<text>" | "panic:<text>" | "hang"
+	Receiver string // "archive" | "none" | "file" | "err" | "panic:<text>"
+}
+
+func verifModeTransfer(w io.Writer, overwrite bool, protocol int, timeoutSec int) *trzszTransfer {
+	t := newTransfer(w, nil, false, nil)
+	t.transferConfig.Overwrite = overwrite
+	t.transferConfig.Protocol = protocol
+	t.transferConfig.Directory = true
+	t.transferConfig.Timeout = timeoutSec
+	t.cleanTimeout = 10 * time.Millisecond
+	return t
+}
+
+// VerifModeScan is checkPathsReadable(paths, true).
+func VerifModeScan(paths []string) ([]VerifModeSrc, error) {
+	src, err := checkPathsReadable(paths, true)
+	if err != nil {
+		return nil, err
+	}
+	var out []VerifModeSrc
+	for _, f := range src {
+		out = append(out, VerifModeSrc{f.PathID, append([]string(nil), f.RelPath...), f.IsDir, f.Size, f.AbsPath})
+	}
+	return out, nil
+}
+
+// VerifModePlan runs, for the scan list of the given paths: the real archiveSourceFiles; per
+// root the real marshalSourceFile and unmarshalSourceFile (the flag as the receiver sees it);
+// the real sendFileNameV3 / sendFileName against a peer that answers SUCC (which reader does
+// the sender open?); the real createDirOrFile in recvDest (which writer does the receiver open?).
+func VerifModePlan(paths []string, recvDest string, overwrite bool, protocol int) (steps []VerifModeStep, panicked string) {
+	defer func() {
+		if r := recover(); r != nil {
+			panicked = fmt.Sprint(r)
+		}
+	}()
+	src, err := checkPathsReadable(paths, true)
+	if err != nil {
+		return nil, "scan: " + err.Error()
+	}
+	st := verifModeTransfer(io.Discard, overwrite, protocol, 2)
+	rt := verifModeTransfer(io.Discard, overwrite, protocol, 2)
+	for _, root := range st.archiveSourceFiles(src) {
+		if root == nil {
+			steps = append(steps, VerifModeStep{Nil: true})
+			continue
+		}
+		step := VerifModeStep{PathID: root.PathID, RelPath: append([]string(nil), root.RelPath...), IsDir: root.IsDir,
+			Size: root.Size, NSubs: len(root.SubFiles)}
+		name, err := root.marshalSourceFile()
+		if err != nil {
+			step.Sender, step.Receiver = "err:marshal", "err"
+			steps = append(steps, step)
+			continue
+		}
+		step.Name = name
+		// ---- the receiver
+		func() {
+			defer func() {
+				if r := recover(); r != nil {
+					step.Receiver = "panic:" + fmt.Sprint(r)
+				}
+			}()
+			parsed, err := unmarshalSourceFile(name)
+			if err != nil {
+				step.Receiver = "err"
+				return
+			}
+			step.Archive = parsed.Archive
+			w, _, err := rt.createDirOrFile(recvDest, parsed, false)
+			switch {
+			case err != nil:
+				step.Receiver = "err"
+			case w == nil:
+				step.Receiver = "none"
+			default:
+				if _, ok := w.(*archiveFileWriter); ok {
+					step.Receiver = "archive"
+				} else {
+					step.Receiver = "file"
+				}
+				w.Close()
+			}
+		}()
+		// ---- the sender, against a peer that accepts the name
+		func() {
+			defer func() {
+				if r := recover(); r != nil {
+					step.Sender = "panic:" + fmt.Sprint(r)
+				}
+			}()
+			reply := `{"name":"x","size":0}`
+			if protocol < kProtocolVersion3 {
+				reply = "x"
+			}
+			st.addReceivedData([]byte("#SUCC:"+encodeString(reply)+"\n"), false)
+			done := make(chan struct{})
+			var file fileReader
+			var err error
+			go func() {
+				defer close(done)
+				defer func() {
+					if r := recover(); r != nil {
+						err = fmt.Errorf("panic: %v", r)
+					}
+				}()
+				if protocol >= kProtocolVersion3 {
+					file, _, err = st.sendFileNameV3(root, nil)
+				} else {
+					file, _, err = st.sendFileName(root, nil)
+				}
+			}()
+			select {
+			case <-done:
+			case <-time.After(10 * time.Second):
+				st.stopTransferringFiles(false)
+				step.Sender = "hang"
+				return
+			}
+			switch {
+			case err != nil:
+				step.Sender = "err:" + err.Error()
+			case file == nil:
+				step.Sender = "none"
+			default:
+				if _, ok := file.(*archiveFileReader); ok {
+					step.Sender = "archive"
+				} else {
+					step.Sender = "file"
+				}
+				file.Close()
+			}
+		}()
+		steps = append(steps, step)
+	}
+	return steps, ""
+}
+
+// VerifPairResult is the outcome of one in-process transfer (real sendFiles against real recvFiles).
+type VerifPairResult struct {
+	SendErr, RecvErr string // "" = nil
+	Hung             bool
+	LocalNames       []string // what recvFiles returns
+	RemoteNames      []string // what sendFiles returns
+	S2R              []byte   // everything the sender wrote
+	R2S              []byte   // everything the receiver wrote
+}
+
+type verifPairWriter struct {
+	mu   *sync.Mutex
+	rec  *bytes.Buffer
+	peer **trzszTransfer
+}
+
+func (w verifPairWriter) Write(p []byte) (int, error) {
+	w.mu.Lock()
+	w.rec.Write(p)
+	w.mu.Unlock()
+	(*w.peer).addReceivedData(append([]byte(nil), p...), false)
+	return len(p), nil
+}
+
+// VerifModePair wires a sending and a receiving trzszTransfer back to back (directory mode)
+// and runs the real sendFiles(checkPathsReadable(paths)) against the real recvFiles(dest).
+func VerifModePair(paths []string, dest string, overwrite bool, protocol int, timeoutSec int, deadline time.Duration) VerifPairResult {
+	var res VerifPairResult
+	var mu sync.Mutex
+	var s2r, r2s bytes.Buffer
+	var sender, receiver *trzszTransfer
+	sender = verifModeTransfer(verifPairWriter{&mu, &s2r, &receiver}, overwrite, protocol, timeoutSec)
+	receiver = verifModeTransfer(verifPairWriter{&mu, &r2s, &sender}, overwrite, protocol, timeoutSec)
+	src, err := checkPathsReadable(paths, true)
+	if err != nil {
+		res.SendErr = "scan: " + err.Error()
+		return res
+	}
+	var wg sync.WaitGroup
+	var sendErr, recvErr error
+	wg.Add(2)
+	go func() {
+		defer wg.Done()
+		defer func() {
+			if r := recover(); r != nil {
+				sendErr = fmt.Errorf("panic: %v", r)
+				receiver.stopTransferringFiles(false)
+			}
+		}()
+		res.RemoteNames, sendErr = sender.sendFiles(src, nil)
+		if sendErr != nil {
+			receiver.stopTransferringFiles(false)
+		}
+	}()
+	go func() {
+		defer wg.Done()
+		defer func() {
+			if r := recover(); r != nil {
+				recvErr = fmt.Errorf("panic: %v", r)
+				sender.stopTransferringFiles(false)
+			}
+		}()
+		res.LocalNames, recvErr = receiver.recvFiles(dest, nil)
+		if recvErr != nil {
+			sender.stopTransferringFiles(false)
+		}
+	}()
+	done := make(chan struct{})
+	go func() { wg.Wait(); close(done) }()
+	select {
+	case <-done:
+	case <-time.After(deadline):
+		res.Hung = true
+		sender.stopTransferringFiles(false)
+		receiver.stopTransferringFiles(false)
+		select {
+		case <-done:
+		case <-time.After(3 * time.Second):
+		}
+	}
+	mu.Lock()
+	res.S2R = append([]byte(nil), s2r.Bytes()...)
+	res.R2S = append([]byte(nil), r2s.Bytes()...)
+	mu.Unlock()
+	if sendErr != nil {
+		res.SendErr = sendErr.Error()
+	}
+	if recvErr != nil {
+		res.RecvErr = recvErr.Error()
+	}
+	return res
+}
